@@ -277,14 +277,11 @@ impl<'a> Ctx<'a> {
         }));
         self.out.line(&format!("C entails {} {}", wa, wb), &r);
         let normal = pa.clone().normalized() == pa && pb.clone().normalized() == pb;
+        let _ = judge_unnormalized;
         if n_distinct(&[a, b]) <= 10 || n_occ(a) > 20 {
-            if normal {
-                self.out.count("entails-judged-normalized");
-                self.out.line(&format!("J entails {} {} {}", wa, wb, r), "ok");
-            } else if judge_unnormalized {
-                self.out.count("entails-judged-unnormalized");
-                self.out.line(&format!("J entails {} {} {}", wa, wb, r), "ok");
-            }
+            // every pair is judged against truth-table implication, normalised or not
+            self.out.count(if normal { "entails-judged-normalized" } else { "entails-judged-unnormalized" });
+            self.out.line(&format!("J entails {} {} {}", wa, wb, r), "ok");
         }
     }
 
@@ -312,6 +309,7 @@ impl<'a> Ctx<'a> {
         }
         let lifted = match guard(|| p.lift()) {
             Some(Ok(s)) => sp_wire(&s),
+            Some(Err(miniscript::Error::Threshold(_))) => "ERRTHRESH".into(),
             Some(Err(_)) => "ERR".into(),
             None => "PANIC".into(),
         };
@@ -356,7 +354,10 @@ fn rand_a(rng: &mut Rng, depth: usize, leaves: &[A], max_n: usize) -> A {
 fn rand_ca(rng: &mut Rng, depth: usize, leaves: &[A], nary: bool) -> CA {
     if depth == 0 || rng.below(10) < 3 { return CA::Leaf(rng.pick(leaves).clone()); }
     match rng.below(3) {
-        0 => CA::And(vec![rand_ca(rng, depth - 1, leaves, nary), rand_ca(rng, depth - 1, leaves, nary)]),
+        0 => {
+            let n = if nary { 1 + rng.below(3) } else { 2 };
+            CA::And((0..n).map(|_| rand_ca(rng, depth - 1, leaves, nary)).collect())
+        }
         1 => {
             let n = if nary { 1 + rng.below(3) } else { 2 };
             CA::Or((0..n).map(|_| (1 + rng.below(9), rand_ca(rng, depth - 1, leaves, nary))).collect())
@@ -433,14 +434,14 @@ pub fn run(out: &mut Out, thorough: bool, seed: u64) {
 
     // ---- 3. entailment
     // (a) all pairs over a small closed set, normalised or not (model correspondence), judged
-    //     when both sides are normalised
+    //     against truth-table implication
     let e_leaves: Vec<A> = vec![A::Key(0), A::Key(1), A::Older(1), A::Triv, A::Unsat];
     let e_tiny: Vec<A> = vec![A::Key(0), A::Key(1), A::Triv, A::Unsat];
     let mut es: Vec<A> = e_leaves.clone();
     for n in 1..=(if thorough { 3 } else { 2 }) { all_thresh(&e_tiny, n, &mut |a| es.push(a)); }
     all_thresh(&[A::Key(0), A::Key(1), A::Key(2)], 3, &mut |a| es.push(a));
     for a in es.iter() { for b in es.iter() { cx.entails_ops(a, b, false); } }
-    // (b) designated un-normalised inputs, judged (constants are matched before normalising)
+    // (b) un-normalised inputs with hidden constants (the former F6 witnesses)
     let un: Vec<A> = vec![
         A::Triv, A::Unsat, A::Key(0), A::Key(1),
         A::Thresh(1, vec![A::Triv, A::Key(0)]),
@@ -477,8 +478,8 @@ pub fn run(out: &mut Out, thorough: bool, seed: u64) {
         A::Triv, A::Unsat,
     ];
     let cl: Vec<CA> = c_leaves.iter().cloned().map(CA::Leaf).collect();
-    // designated: F10 witnesses (mixed path only through UNSATISFIABLE) and non-binary
-    // `And` / `Or` built through the public enum variants
+    // designated: F10 witnesses (mixed path only through UNSATISFIABLE; judged against the
+    // property as stated) and non-binary `And` / `Or` built through the public enum variants
     let o1 = CA::Leaf(A::Older(1));
     let ot = CA::Leaf(A::Older(4194305));
     let un_ = CA::Leaf(A::Unsat);
@@ -497,6 +498,9 @@ pub fn run(out: &mut Out, thorough: bool, seed: u64) {
         CA::Or(vec![(1, k0.clone())]),
         CA::Or(vec![(1, k0.clone()), (1, k1.clone()), (1, k2.clone())]),
         CA::And(vec![o1.clone(), ot.clone(), k0.clone()]),
+        CA::And(vec![k0.clone(), CA::Or(vec![])]),
+        CA::Or(vec![(1, k0.clone()), (2, CA::And(vec![]))]),
+        CA::Thresh(1, vec![CA::And(vec![k0.clone()]), CA::And(vec![k1.clone(), k2.clone(), k0.clone()])]),
     ];
     for c in designated.iter() { cx.concrete_ops(c, true); }
     for l in cl.iter() { cx.concrete_ops(l, false); }
@@ -517,8 +521,9 @@ pub fn run(out: &mut Out, thorough: bool, seed: u64) {
     for _ in 0..(if thorough { 100000 } else { 6000 }) {
         let x = rng.pick(&pool).clone();
         let y = rng.pick(&pool).clone();
-        let c = match rng.below(5) {
+        let c = match rng.below(6) {
             0 => CA::And(vec![x, y]),
+            5 => CA::And(vec![x, y, rng.pick(&pool).clone()]),
             1 => CA::Or(vec![(1 + rng.below(5), x), (1 + rng.below(5), y)]),
             2 => CA::Or(vec![(1, x), (1, y), (2, rng.pick(&pool).clone())]),
             3 => CA::Thresh(2, vec![x, y, rng.pick(&pool).clone()]),
